@@ -111,7 +111,7 @@ PROPS = {
         level_text="Proof: in every reachable state of every interleaving of any number of threads, with the transport accepting each frame in any number of parts, the parts of a frame are contiguous on the wire (control frames only between whole frames); a WriteControl that gives up waiting writes nothing, does not poison the connection, and can always give up even while the writer is blocked inside the transport; mutual exclusion. Translator tie: the atomic actions are those of today's Conn.write / WriteControl (C09.WellLocked over regenerated skeletons); lock_discipline is decided over the field-access table regenerated from the source (every mutable Conn field is touched only by functions of its owning role, the mutex and writeErr only by the four protocol functions; PreparedMessage.frames/once only by frame). Exploration: forced schedules with real goroutines (writer parked inside the transport, 0-6 WriteControl callers with 25 ms / 5 s deadlines, a close among them); thorough adds a -race build of the same runs when the toolchain supports it.",
         level_note="Partial: the Go memory model, scheduler, timers, sync.Pool and sync.Once are not modelled; data-race freedom is argued from the ownership table plus -race runs, not proved. The sched stream has no model side (outcomes are schedule dependent); it is judged by the RFC oracle.",
         lean=["WS.Props.C11"],
-        streams=[("sched", 60, 1500), ("conc", 60, 1000), ("prep", 150, 2000)],
+        streams=[("sched", 60, 1500), ("conc", 60, 1000), ("prep", 150, 2000), ("wfault", 300, 4000)],
         race=[("sched", 300), ("conc", 300)],
     ),
     "C12": P(
